@@ -83,8 +83,12 @@ def _run_cases(binary, cases, seed, level, random_n, max_per_case, shards=8, tim
     parts = _shard(cases, shards)
 
     def one(part):
-        return vlib.run_driver(binary, dict(seed=seed, level=level, scripts=part, random=random_n, deadline_ms=5000,
-                                            max_per_case=max_per_case), timeout=timeout)
+        inp = dict(seed=seed, level=level, scripts=part, random=random_n, deadline_ms=5000, max_per_case=max_per_case)
+        try:
+            return vlib.run_driver(binary, inp, timeout=timeout)
+        except Inconclusive:
+            # e.g. the in-process node lost the race for a free TCP port against another check running on this machine
+            return vlib.run_driver(binary, inp, timeout=timeout)
     with ThreadPoolExecutor(max_workers=len(parts)) as ex:
         outs = list(ex.map(one, parts))
     res = [r for o in outs for r in o]
@@ -152,7 +156,7 @@ def run(prop, tier, seed, replay=None):
     mark("tlc")
     # 3. the real code
     level = 0 if quick else 1
-    random_n = 150 if quick else 8000
+    random_n = 150 if quick else 16000
     results = _run_cases(binary, cases, seed, level, random_n, 0 if not quick else 400, shards=10, timeout=240 if quick else 840)
     if len(results) != len(cases):
         raise Inconclusive("driver returned %d results for %d cases" % (len(results), len(cases)))
@@ -172,6 +176,18 @@ def run(prop, tier, seed, replay=None):
             n_findings += 1
             k = json.dumps(_sig(f), sort_keys=True)
             by_sig.setdefault(k, []).append((r, f))
+    # a missed deadline is confirmed by re-running the input alone (the machine may have been busy): still no reply => hang
+    slow = 0
+    for k in sorted(by_sig):
+        r, f = by_sig[k][0]
+        if f["kind"] != "hang":
+            continue
+        again = vlib.run_driver(binary, dict(seed=seed, level=level, scripts=[], replay=[_replay_obj(f)["replay"]], deadline_ms=5000), timeout=120)
+        if not any(g["kind"] == "hang" for a in again for g in a["findings"]):
+            slow += len(by_sig[k])
+            rep.notes.append("NOTE: %s missed the 5 s deadline under load but replied when re-run alone (%s); not counted as a hang"
+                             % (f["entry"], f["desc"][:120]))
+            del by_sig[k]
     for k in sorted(by_sig):
         r, f = by_sig[k][0]
         rep.violation(_sig(f), _replay_obj(f))
@@ -268,7 +284,7 @@ def run(prop, tier, seed, replay=None):
                traces_validated_against_impl=acc + len(rej) + len(reps), traces_accepted=acc, traces_rejected=len(rej) + confirmed,
                slowest_call_us=max([r.get("max_us", 0) for r in results] or [0]),
                models=models, states=sum(m.get("states", 0) for m in models), transitions=sum(m.get("transitions", 0) for m in models),
-               exhaustive=False, harness_errors=len(errors), phase_wall_s=phases)
+               exhaustive=False, harness_errors=len(errors), phase_wall_s=phases, deadline_misses_not_confirmed=slow)
     vlib.write_evidence(prop, tier, seed, "exploration", cov, time.time() - t0, len(rep.violations),
                         ["the universal quantifier over all byte strings is SAMPLED through the enumerated structure-aware mutation classes "
                          "(type confusion, missing/null member, extreme numbers, truncation, duplicate member, empty, deep nesting, "
